@@ -78,6 +78,22 @@ CLAIMED = {
         "Differential between real observations only (no model of the functions), so it cannot raise a false alarm "
         "through model error; subjects and kernels are seeded samples.",
         "DESIGN.md section 3 (C09)"),
+    "C10": (
+        "TLA+ definitions of the library initializers and their contracts, the random-monotonic initializer as a state "
+        "machine with every shuffle outcome, model-checked by TLC; freshly built real layers validated by TLC",
+        "TLC checks for every configuration of the model space (sizes up to 3x3 / 2x2x2 / 5x2, monotone / unimodal / free "
+        "dimensions, none / one-sided / two-sided / negative bounds) that the linear initial kernel is linear along "
+        "monotone dimensions, valley/peak shaped along unimodal ones, constant elsewhere, spans exactly the init range, "
+        "is feasible and - for monotonicity+bounds-only configurations - is a fixed point of the strict constraint "
+        "(LatticeOps.Constrain); and for every outcome of every per-level shuffle of the random monotonic initializer "
+        "that each vertex gets a larger parameter index than all its predecessors. Real Lattice (linear / random "
+        "monotonic), PWLCalibration (equal_heights / equal_slopes, decreasing) and KroneckerFactoredLattice layers are "
+        "built over random valid configurations and seeds; TLC validates initial weights (shape clauses, equality with "
+        "the spec's kernel as drift), that assert_constraints passes and that the layer's constraint leaves them "
+        "unchanged.",
+        "Configurations rejected at construction (e.g. one-sided bound >= 1 on Lattice) are counted, not judged; KFL "
+        "checked through its outputs on a half-integer grid.",
+        "DESIGN.md section 3 (C10)"),
     "C12": (
         "TLA+ oracle for every covered constraint kind and an injection state machine model-checked by TLC; real "
         "assert_constraints outcomes judged by TLC against the oracle",
